@@ -12,7 +12,7 @@ def main(tier):
     ck.bounds = {'configurations': '245 defined base opcodes + 256 CB opcodes',
                  'values': 'all 16 flag nibbles and every register/memory value symbolic, so both outcomes of every condition code are inside each query',
                  'unwind': '7 machine cycles', 'outside': 'whole-ROM timing (instr_timing.gb); interrupt dispatch length is C04, HALT wake-up C05'}
-    ck.run(jobs, only=r'^cycles$', skip_implicit=True)
+    ck.run(jobs, only=r'^(cycles|halted|stopped|haltbug)$', skip_implicit=True)
     ck.finish(explanation='number of ExecuteMachineCycle calls between instruction boundaries (symbolic, merged over taken/not-taken) equals the documented machine-cycle count of a bit-field-decoded reference')
 
 
